@@ -1,5 +1,7 @@
 package c16
 
+import "time"
+
 // A plan is one complete generated case: what the client writes (byte-exact), how the origin
 // answers, and how both transports and both endpoints are scheduled. It is JSON-encodable so
 // that it can be journaled and replayed.
@@ -58,13 +60,19 @@ type transportPlan struct {
 }
 
 type plan struct {
-	AuthEnabled bool          `json:"auth_enabled"`
-	UserTable   int           `json:"user_table"` // with AuthEnabled: usersOne, usersSeveral, usersNil, usersEmpty
-	Reqs        []reqPlan     `json:"reqs"`
-	Resps       []respPlan    `json:"resps"`        // indexed by the ordinal of the request as the origin receives it
-	Window      int           `json:"window"`       // max requests in flight from the client (pipelining depth)
-	ClientAbort int           `json:"client_abort"` // >=0: the client closes the whole connection after writing this many bytes
-	T           transportPlan `json:"t"`
+	AuthEnabled bool       `json:"auth_enabled"`
+	UserTable   int        `json:"user_table"` // with AuthEnabled: usersOne, usersSeveral, usersNil, usersEmpty
+	Reqs        []reqPlan  `json:"reqs"`
+	Resps       []respPlan `json:"resps"`        // indexed by the ordinal of the request as the origin receives it
+	Window      int        `json:"window"`       // max requests in flight from the client (pipelining depth)
+	ClientAbort int        `json:"client_abort"` // >=0: the client closes the whole connection after writing this many bytes
+	// IdleAt > 0: before writing request #IdleAt the client waits until every earlier request has
+	// been answered and then stays silent for idlePause; the origin drops a connection on which
+	// nothing has moved for OriginIdleSec seconds, i.e. it closes the idle keep-alive connection
+	// while no request is outstanding. Afterwards the client sends request #IdleAt anyway.
+	IdleAt        int           `json:"idle_at"`
+	OriginIdleSec int           `json:"origin_idle_sec"` // 0 = 60
+	T             transportPlan `json:"t"`
 }
 
 // configured user table classes (only meaningful with AuthEnabled)
@@ -87,6 +95,17 @@ func (p *plan) validTokens() []string {
 		return []string{goodToken, bobToken}
 	}
 	return nil
+}
+
+// idlePause is how long the client stays silent at IdleAt (virtual time); far longer than any
+// origin idle timeout, far shorter than the watchdog.
+const idlePause = 10 * time.Minute
+
+func (p *plan) originIdle() time.Duration {
+	if p.OriginIdleSec > 0 {
+		return time.Duration(p.OriginIdleSec) * time.Second
+	}
+	return time.Minute
 }
 
 const (
